@@ -8,10 +8,10 @@ CHECKS = {
         "id": "C15", "engine": "envsim", "flavour": "asan", "binary": "build/asan/c15", "level": "exploration",
         "tiers": {"quick": {"runs": 1200000, "batch": 2500, "wall_cap": 300}, "thorough": {"runs": 12000000, "batch": 5000, "wall_cap": 1500}},
         "rule": "one case = one seeded environment (chains, dims, form, pdf kind, domain kind, update rule, differential weight, "
-                "burn/collect lengths, split point, endpoint-draw injections attached to draw kinds); executed as a single run and as "
-                "two consecutive runs; distinct = distinct (configuration shape, injection list); non-trivial = at least one iteration",
+                "burn/collect lengths, split point, endpoint-draw injections attached to draw kinds; optionally the C interface tsgDreamSample, a probability composed by TasDREAM::posterior(), a failing probability callback at the first evaluation followed by a retry); executed as a single run, as "
+                "two consecutive runs, and with a re-seeded (setState, optionally clearHistory) second run on the same state object; distinct = distinct (configuration shape, injection list); non-trivial = at least one iteration",
         "components": {"real": ["TasDREAM::SampleDREAM (both forms, both overloads)", "TasmanianDREAM state", "tsgDreamCoreRandom updates"] ,
-                       "simulated": ["random-number source (seeded stream + injected 0.0/1.0 endpoint draws)", "probability function", "domain test", "independent update (user kinds)", "differential weight"]},
+                       "simulated": ["random-number source (seeded stream + injected 0.0/1.0 endpoint draws)", "probability function (incl. a failing call)", "domain test", "independent update (user kinds)", "differential weight", "the caller's life cycle of the state object (split runs, setState, clearHistory, retry)"]},
         "expect_probes": ["reach.k_clamped", "reach.j_clamped", "reach.tie", "reach.nan_ratio", "reach.all_proposals_outside", "reach.accept_ratio", "reach.reject_ratio", "reach.reject_outside"],
         "assumptions": ["the generator returns values in [0,1]; the pdf does not resize its output", "ASan/UBSan instrumentation reports every out-of-range access of chain data"],
         "determinism_runs": 3000,
@@ -23,11 +23,11 @@ CHECKS["C20"] = {
     "tiers": {"quick": {"runs": 1500000, "batch": 2500, "wall_cap": 300}, "thorough": {"runs": 12000000, "batch": 5000, "wall_cap": 1500}},
     "rule": "one case = one seeded environment (particles, dims, objective kind, domain kind, coefficients, initialisation, endpoint-draw injections) "
             "and a plan of 1-4 ParticleSwarm calls separated by state edits (none, clearCache, clearBestParticles, both, manual positions/bests + clearCache, "
-            "manual velocities); calls separated by 'none' are also executed merged (n then m vs n+m); distinct = distinct (configuration shape, call/edit plan, injections)",
+            "manual positions/bests without clearCache, manual velocities), an objective that fails at its n-th call (the caller catches and carries on) or that runs an inner swarm (re-entrancy); calls separated by 'none' are also executed merged (n then m vs n+m); distinct = distinct (configuration shape, call/edit plan, injections)",
     "components": {"real": ["TasOptimization::ParticleSwarm", "ParticleSwarmState (all setters, clearCache, clearBestParticles, initializeParticlesInsideBox)"],
-                   "simulated": ["random-number source (seeded stream + injected 0.0/1.0 draws)", "objective function", "domain test", "the caller's sequence of calls and state edits"]},
+                   "simulated": ["random-number source (seeded stream + injected 0.0/1.0 draws)", "objective function (incl. failing and re-entrant calls)", "domain test", "the caller's sequence of calls and state edits"]},
     "expect_probes": ["reach.best_reevaluated", "reach.particle_never_inside", "reach.swarm_never_inside", "reach.placeholder_best_reevaluated"],
-    "assumptions": ["objective and domain are pure functions; manual edits of positions or bests are followed by clearCache() and manual bests are self-consistent (swarm strip = best in-domain personal best)",
+    "assumptions": ["objective and domain are pure functions; manual bests are self-consistent (swarm strip = best in-domain personal best)",
                     "cached objective values are private: they are checked through the positions they select, not read directly"],
     "determinism_runs": 3000,
 }
@@ -59,7 +59,7 @@ CHECKS["C09"] = {
     "tiers": {"quick": {"runs": 400000, "batch": 1000, "wall_cap": 420}, "thorough": {"runs": 4000000, "batch": 2000, "wall_cap": 2400}},
     "rule": "one case = a seeded grid configuration (Global nested rules, Sequence, LocalPolynomial all rules/orders, Wavelet, Fourier; 1-3 dims; 1-2 outputs; limits; domain transform), "
             "a target set (points of a second grid of the same family with other depth/type/weights, united with the start grid), start fresh or loaded, "
-            "and a delivery schedule: permutation (shuffle/sorted/reverse), batch partition, and interleaved candidate queries, write/read and copies of the half-built grid; "
+            "optionally thinned to a sparse (not parent-closed) set, and a delivery schedule: permutation (shuffle/sorted/reverse), batch partition, and interleaved candidate queries, write/read, copies (whole or an output sub-range) of the half-built grid and redundant beginConstruction() calls; "
             "distinct = distinct (start state shape, number of samples, order, schedule); non-trivial = at least 2 samples",
     "components": {"real": ["beginConstruction / getCandidateConstructionPoints / loadConstructedPoints (single and batch paths) / finishConstruction of all five families", "grid write/read/copy"],
                    "simulated": ["the sample channel between model workers and the grid: arrival order, batching, delay relative to candidate queries, checkpoint/restore and copies (no loss, no duplication)", "model values (injective function of point and output)"]},
@@ -78,7 +78,7 @@ CHECKS["C14"] = {
     "tiers": {"quick": {"runs": 600000, "batch": 1500, "wall_cap": 420}, "thorough": {"runs": 6000000, "batch": 3000, "wall_cap": 2400}},
     "rule": "one case = a seeded grid (or the empty object) + a seeded valid history (as in C06) in which documented misuses are injected at seeded positions on G only; "
             "each misuse is drawn from the table of throws-clauses applicable in the current state (sizes, ranges, wrong family, empty grid, out-of-order calls, no-GPU calls, "
-            "unreadable / non-Tasmanian files through the simulated file system); distinct = distinct (sequence of (clause, family, state class), final state shape); non-trivial = at least one misuse issued",
+            "unreadable / non-Tasmanian / damaged files through the simulated file system); after a third of the rejected calls the object is written and read back; distinct = distinct (sequence of (clause, family, state class), final state shape); non-trivial = at least one misuse issued",
     "components": {"real": ["every public TasmanianSparseGrid method with a documented throws-clause", "readers of both formats", "libstdc++ iostreams"],
                    "simulated": ["the misbehaving caller (misuse injected at an arbitrary point of a history)", "file system under /simfs/: ENOENT, EACCES, zero-length file, wrong header, unknown grid type, future version"]},
     "expect_probes": ["reach.emptied_by_failed_make_or_read", "note.raised_documented_type"],
@@ -86,7 +86,7 @@ CHECKS["C14"] = {
                     "truncated or bit-flipped bodies of otherwise valid files are not injected (not in a throws-clause)"],
     "level_text": "seeded exploration of histories with injected documented misuses and I/O faults, checked against an un-faulted twin: exception type, unchanged points/values/surrogate (or empty after failed make/read), "
                   "continued usability, no crash or sanitizer report",
-    "level_note": "table-driven: covers the throws-clauses listed in engines/c14.cpp (about 85 clause variants), each in the states the seeded histories reach; a clean batch is evidence, not proof. Trusted: ASan/UBSan, the twin",
+    "level_note": "table-driven: covers the throws-clauses listed in engines/c14.cpp (about 100 clause variants), each in the states the seeded histories reach; a clean batch is evidence, not proof. Trusted: ASan/UBSan, the twin",
     "technique": "deterministic simulation with fault injection where the fault is the documented misuse or the unreadable/non-Tasmanian file (simulated file system), injected into seeded histories and judged against an un-faulted twin",
     "determinism_runs": 2000, "exec_timeout": 120, "batch_timeout": 600,
 }
